@@ -79,7 +79,7 @@ def build_packages(pkgs, dest):
         outdir = os.path.join(w, "bin", "optics_%d" % os.getpid())
         shutil.rmtree(outdir, ignore_errors=True)
         os.makedirs(outdir)
-        cmd = [common.GO, "test", "-c", "-vet=off", "-tags", "verif", "-o", outdir + "/"] + ["./gen/" + n for n in pkgs]
+        cmd = [common.GO, "test", "-c", "-p", "6", "-vet=off", "-tags", "verif", "-o", outdir + "/"] + ["./gen/" + n for n in pkgs]      # (-p 6: at most six compilers at a time - memory)
         t0 = time.time()
         for attempt in range(3):
             p = subprocess.run(cmd, cwd=w, env=common.GOENV, stdout=subprocess.PIPE, stderr=subprocess.STDOUT, text=True, timeout=1500)
@@ -222,7 +222,7 @@ def check_c03(run, shapes=None):
         shapes = enumerate_shapes(run, "HseqGen", c03_configs(run.tier), C03_INV, "c03")
         shapes = sample_shapes(shapes, 3000 if thorough else 700, run.seed)
     run.notes["shapes_compiled"] = len(shapes)
-    groups = split(shapes, 8)
+    groups = split(shapes, 24 if thorough else 8)
     rnd = random.Random(run.seed)
     pkgs, inputs = {}, {}
     with Scratch() as d:
@@ -345,7 +345,7 @@ def check_optics(run, shapes=None):
         if prop == "C02":
             model_defect(run)
     run.notes["shapes_compiled"] = len(shapes)
-    groups = split(shapes, 8)
+    groups = split(shapes, 24 if thorough else 8)     # (a package of 375 shapes takes the compiler 8 GB: with 8 of them at once the kernel killed it)
     pkgs, inputs, ninst = {}, {}, 0
     with Scratch() as d:
         for gi, grp in enumerate(groups):
